@@ -83,6 +83,14 @@ class Ctx:
         if not smt.is_true(g) and not smt.is_false(g):
             self.facts.append(g)
 
+    def apply_lemma(self, name, premises, conclusion):
+        """use of a lemma schema proved separately (the contract module's lemma library): every premise of the instance is an
+        obligation here; the conclusion of the instance is then available"""
+        for pname, f in premises:
+            self.obligations.append(Obligation(f"lemma.{name}.premise.{pname}", self.hyps(), f if not isinstance(f, bool) else z3.BoolVal(f), self.where, "lemma-premise"))
+        self.used_lemmas = getattr(self, "used_lemmas", set()) | {name}
+        self.assume(conclusion)
+
     # ---- forking -------------------------------------------------------
     def choose(self, conds):
         """conds: list of z3 Bool guards (mutually exclusive or not); returns the index taken."""
